@@ -336,6 +336,33 @@ func newRuntimeState(compiled config.Compiled) *runtimeState {
 func (s *runtimeState) updateAll(compiled config.Compiled) {
 	s.mu.Lock()
 	defer s.mu.Unlock()
+	s.updateAllLocked(compiled)
+}
+
+// applyCompiled builds the authenticators of compiled and then installs them
+// together with the route table, limits and limiters in one critical section,
+// so that no request can observe the new authenticators with the old routes
+// (or the reverse) while a reload is in progress.
+func (s *runtimeState) applyCompiled(compiled config.Compiled) error {
+	next := &runtimeState{}
+	if err := next.loadAuth(compiled); err != nil {
+		return err
+	}
+	s.mu.Lock()
+	defer s.mu.Unlock()
+	s.pullAuthorize = next.pullAuthorize
+	s.workerAuthorize = next.workerAuthorize
+	s.adminAuthorize = next.adminAuthorize
+	s.pullByRoute = next.pullByRoute
+	s.workerByRoute = next.workerByRoute
+	s.basicByRoute = next.basicByRoute
+	s.forwardByRoute = next.forwardByRoute
+	s.hmacByRoute = next.hmacByRoute
+	s.updateAllLocked(compiled)
+	return nil
+}
+
+func (s *runtimeState) updateAllLocked(compiled config.Compiled) {
 	s.routes = compiled.Routes
 	s.pathToRoute = compiled.PathToRoute
 	s.trendSignals = compiled.Defaults.TrendSignals
@@ -1106,11 +1133,10 @@ func reloadConfig(path string, running config.Compiled, state *runtimeState, log
 		return running, false
 	}
 
-	if err := state.loadAuth(compiled); err != nil {
+	if err := state.applyCompiled(compiled); err != nil {
 		logger.Error("config_reload_failed", slog.Any("err", err), slog.String("trigger", trigger))
 		return running, false
 	}
-	state.updateAll(compiled)
 
 	logger.Info("config_reloaded_ok", slog.String("trigger", trigger))
 	return compiled, true
